@@ -21,7 +21,7 @@ pub fn optsets() -> Vec<Options> {
 
 fn cases(ob: &str) -> Vec<String> {
     let mut out = vec![];
-    if let Some(seed) = crate::gen::thorough_seed(ob) { for t in crate::gen::texts(seed ^ 10, 300, true) { for oi in [0usize, 2] { out.push(format!("apix:{}:{}", crate::hex(t.as_bytes()), oi)); out.push(format!("walkx:{}:{}", crate::hex(t.as_bytes()), oi)); } } }
+    if let Some(seed) = crate::gen::thorough_seed(ob) { for t in crate::gen::texts(seed ^ 10, crate::gen::scale(ob, 300), true) { for oi in [0usize, 2] { out.push(format!("apix:{}:{}", crate::hex(t.as_bytes()), oi)); out.push(format!("walkx:{}:{}", crate::hex(t.as_bytes()), oi)); } } }
     for ci in 0..corpus().len() { for oi in 0..optsets().len() { out.push(format!("api:{}:{}", ci, oi)); out.push(format!("walk:{}:{}", ci, oi)); } }
     for i in 0..deep_texts().len() { out.push(format!("deep:{}", i)); }
     out
